@@ -301,6 +301,10 @@ class Spec:
             v = S.lift(v)
             return S.V(S.BOOL, _cu("isinstance_" + name, v.s, S.BOOL)(v.t))
 
+        def alias(expr_text):
+            """Sort marker for a block input that is bound to a container's method, e.g. params=dict(a=alias("r.append"))."""
+            return ("alias", expr_text)
+
         def attr_sort(name, sort):
             sp.attr_sorts[name] = sort
 
@@ -385,7 +389,7 @@ class Spec:
 
         ns = dict(cls=cls, ghost=ghost, assumed=assumed, verified=verified, target=target, loop=loop,
                   fold_sum=fold_sum, fold_all=fold_all, fold_cat=fold_cat, use_rev=use_rev, fold_unit=fold_unit, rev_hints=rev_hints, attr=attr, seq_lemma=seq_lemma, lemma=lemma,
-                  exceptions=exceptions, attr_sort=attr_sort, class_tests=class_tests, is_a=is_a, instance_of=instance_of, exc_attr=exc_attr, StartsWith=StartsWith, EndsWith=EndsWith, Card=Card, always_truthy=always_truthy, const=const, assume_note=assume_note,
+                  exceptions=exceptions, attr_sort=attr_sort, alias=alias, class_tests=class_tests, is_a=is_a, instance_of=instance_of, exc_attr=exc_attr, StartsWith=StartsWith, EndsWith=EndsWith, Card=Card, always_truthy=always_truthy, const=const, assume_note=assume_note,
                   undecided=undecided, pure=pure, ufunc=ufunc, forall=forall, exists=exists,
                   extra_check=extra_check, census=census, include=include, rx=re.compile, SPEC=sp)
         for k in ("INT BOOL STR BYTES NONE ANY Seq Tup Opt SetS MapS Opaque Enum Obj V If And Or Not Implies "
